@@ -8,8 +8,11 @@ import runner
 
 PID = "C07"
 SKEL_SRC = "internal/rules/repository_impl.go"
-GEN = os.path.join(vf.COQ, "Gen", "RepoSkel.v")
 OUTD = os.path.join(vf.OUT, PID)
+# A run against another checkout (VERIF_REPO, e.g. a seeded change) must not touch the shared Coq tree: its
+# skeleton is generated into the run's own out directory and the repository instances are compiled there.
+ALT = os.path.realpath(vf.REPO) != os.path.realpath(os.environ.get("VERIF_HOME_REPO", "/repo"))
+GEN = os.path.join(OUTD, "RepoSkel.v") if ALT else os.path.join(vf.COQ, "Gen", "RepoSkel.v")
 
 
 # --------------------------------------------------------------------------- skeleton regeneration
@@ -25,7 +28,35 @@ def gen_skel(rep=None):
                    "-out", GEN, "-json", os.path.join(OUTD, "skel.json")], timeout=120)
     if rc != 0:
         return False, "skeleton extractor failed on %s: %s" % (SKEL_SRC, o[-1500:])
-    return True, "regenerated Gen/RepoSkel.v"
+    return True, "regenerated " + GEN
+
+
+def alt_instances():
+    """alt run: compile  <generated skeleton> + <body of C07/Repo.v>  in the run's own directory: the repository
+    instances of the theorems for the skeleton of the other checkout (the shared Gen/RepoSkel.v is not touched)"""
+    repo_v = open(os.path.join(vf.COQ, "C07", "Repo.v")).read().replace(" Gen.RepoSkel", "")
+    path = os.path.join(OUTD, "alt_instances.v")
+    with open(path, "w") as f:
+        f.write(open(GEN).read() + "\n" + repo_v + "\nPrint Assumptions repo_safe.\nPrint Assumptions repo_linearizable.\n")
+    rc, o = vf.coqc_file(path, timeout=900)
+    return rc == 0 and o.count("Closed under the global context") >= 2, o
+
+
+def read_obs_tolerant(path):
+    """like vf.read_obs, but a last line cut off by a dying driver (race detector exit, deadlock) is skipped"""
+    out = []
+    if not os.path.exists(path):
+        return out
+    with open(path) as f:
+        for line in f:
+            line = line.strip()
+            if not line:
+                continue
+            try:
+                out.append(json.loads(line))
+            except ValueError:
+                pass
+    return out
 
 
 def probe_skel():
@@ -139,7 +170,13 @@ def run_stress(rep, tier, seed, n, only=None, tag="stress"):
     st = dict(STREAM)
     if os.environ.get("VERIF_C07_NORACE") == "1":     # experiments only: look at the linearizability check alone
         st["race"] = False
-    rc, out, obs = runner.run_stream(PID, st, tier, seed, n, only=only, tag=tag)
+    ov = vf.overlay_for(PID, st["overlay"])
+    env = {"VERIF_SEED": seed, "VERIF_N": n, "VERIF_TIER": tier}
+    if only is not None:
+        env["VERIF_ONLY"] = only
+    rc, out, obs_path = vf.go_run_driver(PID, st["pkg"], st["test"], ov, env=env, race=st.get("race", False),
+                                         timeout=st.get("timeout", 1800), tag=tag)
+    obs = read_obs_tolerant(obs_path)
     if "WARNING: DATA RACE" in out or "race detected during execution" in out:
         i = out.find("WARNING: DATA RACE")
         return "race", out[i:i + 6000] if i >= 0 else out[-3000:], obs
@@ -157,8 +194,8 @@ def custom(P, tier, seed, replay=None):
 
     # 0. regenerate the skeleton from the working tree
     ok, msg = gen_skel(rep)
-    rep.obligation("generate:Gen/RepoSkel.v", ok)
-    cmds.append("go build harness/tools/skel && skel -repo $REPO -file %s -out coq/Gen/RepoSkel.v" % SKEL_SRC)
+    rep.obligation("generate:RepoSkel.v", ok)
+    cmds.append("go build harness/tools/skel && skel -repo $REPO -file %s -out %s" % (SKEL_SRC, os.path.relpath(GEN, vf.VERIF)))
     wf_ok = False
     cex = []
     if not ok:
@@ -178,13 +215,21 @@ def custom(P, tier, seed, replay=None):
         if nm.get("notes"):
             rep.notes.append("extractor notes: " + "; ".join(nm["notes"][:10]))
     rep.obligation("example:repo_skel_wf", wf_ok)
+    if tier == "thorough" and not replay:
+        # self-tests of the extractor (constructs it must refuse, translations it must produce)
+        rc, o = vf.sh(["go", "test", "-count=1", "./..."], cwd=os.path.join(vf.HARNESS, "tools", "skel"), env=vf.GOENV, timeout=900)
+        rep.obligation("selftest:harness/tools/skel", rc == 0)
+        cmds.append("cd harness/tools/skel && go test ./...")
+        if rc != 0:
+            rep.notes.append("extractor self-tests failed: " + o[-1500:])
 
     # 1. proofs
-    targets = P["coq_targets"]
+    targets = [t for t in P["coq_targets"]]
     okb, out = vf.coq_make(targets)
     cmds.append("cd coq && make " + " ".join(targets))
     proofs_ok = okb
     ass = None
+    inst_ok = True
     if not okb:
         f, line = vf.coq_failed_file(out)
         rep.notes.append("proof build failed at %s:%s\n%s" % (f, line, out[-1200:]))
@@ -193,8 +238,16 @@ def custom(P, tier, seed, replay=None):
         if ass is None:
             proofs_ok = False
             rep.notes.append("Print Assumptions failed: " + aout[-800:])
+    if ALT and ok:
+        # the shared tree holds the skeleton of the home checkout; the instances for THIS checkout are compiled aside
+        inst_ok, iout = alt_instances() if okb else (False, "general development does not build")
+        cmds.append("coqc out/.../C07/alt_instances.v  (generated skeleton + C07/Repo.v)")
+        if not inst_ok:
+            rep.notes.append("repository instances do not compile for the regenerated skeleton: " + iout[-1200:])
     for t in P["theorems"]:
         good = proofs_ok and ass is not None and t in ass and "Closed under the global context" in ass[t]["assumptions"]
+        if t.startswith("C07_repo_"):
+            good = good and inst_ok and wf_ok
         rep.obligation("theorem:" + t, good)
     if tier == "thorough" and proofs_ok and not replay:
         okc, txt = vf.coqchk(P["theorems_module"])
